@@ -242,6 +242,12 @@ def step (c : Cfg) (s : State) : Label → Option State
     if s.otherRefs > 0 ∧ s.rAlive ∧ s.rq.length < c.rcap then some { s with rq := s.rq ++ [.final] } else none
   | .otherGone => if s.otherRefs = 0 then none else some { s with otherRefs := s.otherRefs - 1 }
 
+/-- labels of the receiving endpoint (used to split preservation proofs in two halves) -/
+def Label.recvSide : Label → Bool
+  | .rSeeClosed | .rSeeGone | .rRecv | .rRecvErr | .rPush | .rPushFail | .lholderRelease | .rNotifyErr
+  | .recv | .close | .dropRx | .lsend _ | .lclone | .ldrop | .otherPush _ | .otherFinal | .otherGone => true
+  | _ => false
+
 def init (handles lhandles others : Nat) : State :=
   { handles := handles, lhandles := lhandles, otherRefs := others }
 
